@@ -3,10 +3,12 @@ import Proofs.InterpLaws
 import Proofs.InterpScope
 import Proofs.InterpCalls
 import Proofs.InterpEnum
+import Proofs.InterpReturn
 
 /-!
   C15 — Callable model elements behave as their OAL bodies specify.
-  Property theorems only (helper lemmas: Proofs/InterpScope.lean, Proofs/InterpCalls.lean, Proofs/InterpEnum.lean).
+  Property theorems only (helper lemmas: Proofs/InterpScope.lean, Proofs/InterpCalls.lean, Proofs/InterpReturn.lean,
+  Proofs/InterpEnum.lean).
 
   Model: `Spec` (PyxModel/Interp/Spec.lean) with the callable table of `Ctx` (functions, bridges, class- and
   instance-based operations, derived attributes): `invoke` runs the callee's body in a NEW frame (`mkFrame`: fresh
@@ -64,8 +66,9 @@ theorem params_by_name (C : Ctx) (rec : Oracle) (kind : WalkerKind) (body : Bloc
 /-! ## self -/
 
 /-- in an operation and in a derived attribute `self` is the receiver the walker was created with; an instance-based
-    operation `h.op(…)` and a derived attribute read `h.attr` create it with the instance `h` denotes, a class-based
-    operation with the empty handle; in a function or bridge `self` is unbound -/
+    operation `h.op(…)` and a derived attribute read `h.attr` create it with the instance `h` denotes; a class-based
+    operation `NS::op(…)` runs in an operation walker whose receiver is the empty handle (so `self` reads as the
+    empty handle there); a function `::f(…)` and a bridge `NS::b(…)` run in a function walker, where `self` is unbound -/
 theorem self_bound (C : Ctx) (rec : Oracle) :
     (∀ c, c.fr.kind ≠ .function → evalStep C rec .self c = some (.ok (c.fr.self, c))) ∧
     (∀ c, c.fr.kind = .function → ∃ e, evalStep C rec .self c = some (.error e)) ∧
@@ -75,10 +78,37 @@ theorem self_bound (C : Ctx) (rec : Oracle) :
         evalStep C rec (.callInst h name args) c = invoke rec .operation f.body kw (.inst i) c2) ∧
     (∀ i name f c, regHit c.fr i name = false → findDerived C i.cls name = some f →
         readField C rec i name c = invoke rec (.derived i name) f.body [] (.inst i) c) ∧
-    (∀ kind kw self, (mkFrame kind kw self).self = self) :=
+    (∀ kind kw self, (mkFrame kind kw self).self = self) ∧
+    -- class-based operation / bridge: `NS::name(args)`
+    (∀ k ns name args c c2 f kw, (k = .implicit ns ∨ k = .classOp ns ∨ k = .bridge ns) →
+        evalArgs rec args c = some (.ok (kw, c2)) → resolveNs C ns name = some f →
+        evalStep C rec (.call k name args) c =
+          invoke rec (match f.kind with | .bridge _ => .function | _ => .operation) f.body kw .none c2) ∧
+    (∀ kw st, evalStep C rec .self { fr := mkFrame .operation kw .none, st := st }
+        = some (.ok (.none, { fr := mkFrame .operation kw .none, st := st }))) ∧
+    -- function: `::name(args)`
+    (∀ name args c c2 f kw, evalArgs rec args c = some (.ok (kw, c2)) →
+        findCallable C (fun f => f.kind = .function ∧ f.name = name) = some f →
+        evalStep C rec (.call .function name args) c = invoke rec .function f.body kw .none c2) ∧
+    (∀ kw self st, ∃ e, evalStep C rec .self { fr := mkFrame .function kw self, st := st } = some (.error e)) :=
   ⟨fun _ h => eval_self h, fun _ h => eval_self_function h,
    fun _ _ _ _ _ _ _ _ _ h1 h2 h3 => callInst_runs_with_self h1 h2 h3,
-   fun _ _ _ _ h1 h2 => derived_read h1 h2, fun _ _ _ => rfl⟩
+   fun _ _ _ _ h1 h2 => derived_read h1 h2, fun _ _ _ => rfl,
+   fun _ _ _ _ _ _ _ _ hk ha hf => call_ns_runs hk ha hf,
+   fun kw st => eval_self_classOp C rec kw st,
+   fun _ _ _ _ _ _ ha hf => call_function_runs_unbound ha hf,
+   fun _ _ _ => eval_self_function rfl⟩
+
+/-- the NAME `self` (any letter case) used where a variable is expected — `relate self to …`, `unrelate self from …`,
+    `delete object instance self`, `select … related by self->…`, `for each … in self` — denotes the receiver in an
+    operation and a derived attribute; in a function it is an ordinary variable name -/
+theorem self_name (C : Ctx) (x : String) (c : Cfg) :
+    (selfHit c.fr x = true → lookupVar C x c = some (.ok (c.fr.self, c))) ∧
+    (∀ v, selfHit c.fr x = false → envLookup c.fr.env x = some v → lookupVar C x c = some (.ok (v, c))) ∧
+    (c.fr.kind = .function → selfHit c.fr x = false) ∧
+    (c.fr.kind ≠ .function → selfHit c.fr x = (x.map Char.toLower == "self")) :=
+  ⟨lookupVar_self, fun _ h1 h2 => lookupVar_env h1 h2, fun h => by simp [selfHit, h],
+   fun h => by cases hk : c.fr.kind <;> simp_all [selfHit, isSelfName]⟩
 
 /-! ## the result -/
 
@@ -93,10 +123,10 @@ theorem return_value (C : Ctx) (n : Nat) :
     (∀ e cfg c1 v, Evals C e cfg (.ok (v, c1)) →
         Execs C (.ret (some e)) cfg (.ok (.ret, { c1 with fr := { c1.fr with ret := v } }))) ∧
     (∀ s rest cfg c1, Execs C s cfg (.ok (.ret, c1)) → ListExecs C (s :: rest) cfg (.ok (.ret, c1))) ∧
-    (∀ cfg, Execs C (.ret none) cfg (.ok (.ret, cfg))) ∧
+    (∀ cfg, Execs C (.ret none) cfg (.ok (.retBare, cfg))) ∧
     (∀ kind body kw self c c' o, NotDerived kind →
         execBlock (run C n) body { fr := mkFrame kind kw self, st := c.st } = some (.ok (o, c')) →
-        (o = .normal ∨ o = .stop) →
+        (o = .normal ∨ o = .stop ∨ o = .retBare) →
         invoke (run C n) kind body kw self c = some (.ok (.none, { fr := c.fr, st := c'.st }))) :=
   ⟨fun _ _ _ _ _ _ _ h => invoke_ok_inv h, fun _ _ _ _ h => exec_return_value h,
    fun _ _ _ _ h => list_cons_abrupt h (by simp), fun _ => exec_return_bare,
@@ -108,6 +138,32 @@ theorem return_register_untouched (C : Ctx) (n : Nat) (s : Stmt) (c c' : Cfg) (o
     (h : (run C n).exec s c = some (.ok (o, c'))) (hk : NotDerived c.fr.kind) :
     c'.fr.kind = c.fr.kind ∧ (o ≠ .ret → c'.fr.ret = c.fr.ret) :=
   presRet_run C n s c o c' h hk
+
+/-- **the value of the executed return**: wherever in the body the `return <expr>` sits — nested in blocks, `if` /
+    `elif` / `else`, `while`, `for each` to any depth — an invocation (function, bridge, operation) that delivers `v`
+    either ended its body without a value return (fell through, bare `return;`, `control stop`) and `v` is nothing,
+    or the body ended by `return`, some expression was evaluated to exactly `v`, and after that evaluation nothing but
+    unwinding happened (the state the caller gets back is the state right after that evaluation).
+    Consequently a value other than nothing is always the value of an executed `return <expr>`. -/
+theorem return_value_executed (C : Ctx) (n : Nat) (kind : WalkerKind) (body : Block) (kw : List (String × Val))
+    (self : Val) (c c2 : Cfg) (v : Val) (hk : NotDerived kind)
+    (h : invoke (run C n) kind body kw self c = some (.ok (v, c2))) :
+    ((v = .none ∧ ∃ o c', execBlock (run C n) body { fr := mkFrame kind kw self, st := c.st } = some (.ok (o, c')) ∧ o ≠ .ret) ∨
+     (∃ e c0 cE c', (run C n).eval e c0 = some (.ok (v, cE)) ∧
+        execBlock (run C n) body { fr := mkFrame kind kw self, st := c.st } = some (.ok (.ret, c')) ∧
+        c'.st = cE.st ∧ c2.st = cE.st)) ∧
+    (v ≠ .none → ∃ c', execBlock (run C n) body { fr := mkFrame kind kw self, st := c.st } = some (.ok (.ret, c')) ∧
+        v = c'.fr.ret) :=
+  ⟨invoke_delivers_executed_return hk h, invoke_value_needs_return hk h⟩
+
+/-- a statement completes with the outcome `ret` only through a return event: some expression was evaluated to `v`,
+    the register set to `v`, and whatever ran afterwards left state and register alone — for every statement, at
+    every nesting depth, for every fuel -/
+theorem return_outcome_has_event (C : Ctx) (n : Nat) (s : Stmt) (c c' : Cfg)
+    (h : (run C n).exec s c = some (.ok (.ret, c'))) :
+    ∃ e c0 v cE, (run C n).eval e c0 = some (.ok (v, cE)) ∧ c'.st = cE.st ∧ c'.fr.ret = v := by
+  obtain ⟨c1, ⟨e, c0, v, cE, hev, hc1⟩, hs1, hs2⟩ := retInv_run C n s c .ret c' h rfl
+  exact ⟨e, c0, v, cE, hev, by rw [hs1, hc1], by rw [hs2, hc1]⟩
 
 /-! ## derived attributes -/
 
@@ -185,13 +241,34 @@ theorem constants (rows rows' : List ConstRow) (hp : rows.Perm rows') (hnd : (ro
   rw [← constTable_lookup_perm hp hnd]
   exact constTable_lookup hnd hr hv
 
-/-- the conversions of `mk_constant` -/
+/-- the conversions of `mk_constant`, for EVERY text: a string constant is its text; a boolean is whether the text
+    spelled in lower case is `true`; an integer is the number its decimal numeral denotes — for every integer; any
+    other type name yields no constant -/
 theorem constants_conversion :
-    constVal "integer" "42" = some (.int 42) ∧ constVal "integer" "-3" = some (.int (-3)) ∧
-    constVal "boolean" "TRUE" = some (.bool true) ∧ constVal "boolean" "false" = some (.bool false) ∧
-    constVal "boolean" "yes" = some (.bool false) ∧ constVal "string" "x y" = some (.str "x y") ∧
-    constVal "real" "1.5" = none := by
-  decide +kernel
+    (∀ t, constVal "string" t = some (.str t)) ∧
+    (∀ t, constVal "boolean" t = some (.bool (t.map Char.toLower == "true"))) ∧
+    (∀ n : Nat, constVal "integer" (Nat.repr n) = some (.int n)) ∧
+    (∀ n : Nat, constVal "integer" ("-" ++ Nat.repr (n + 1)) = some (.int (-((n + 1 : Nat) : Int)))) ∧
+    (∀ ty t, ty ≠ "boolean" → ty ≠ "integer" → ty ≠ "string" → constVal ty t = none) :=
+  constVal_universal
+
+/-- the tables reach the interpreter: where the context carries `constTable rows'` (any permutation of the CNST rows),
+    the NAME of a constant — not hidden by a local variable, not `self` — evaluates to its converted value, and a local
+    variable of that name hides it; where the context carries `mk_enum`'s order of the (permuted) S_ENUM rows of `E`,
+    `E::name` evaluates to the modeled position of `name` -/
+theorem tables_reach_interpreter (C : Ctx) (rec : Oracle) :
+    (∀ (rows rows' : List ConstRow) (r : ConstRow) (v : Val) (c : Cfg), C.consts = constTable rows' → rows.Perm rows' → (rows.map ConstRow.name).Nodup → r ∈ rows →
+        constVal r.tyName r.text = some v → selfHit c.fr r.name = false → envLookup c.fr.env r.name = none →
+        evalStep C rec (.var r.name) c = some (.ok (v, c))) ∧
+    (∀ (x : String) (c : Cfg) (w : Val), selfHit c.fr x = false → envLookup c.fr.env x = some w →
+        evalStep C rec (.var x) c = some (.ok (w, c))) ∧
+    (∀ (ns : String) (rows : List EnumRow) (L : List (Nat × String)) (k : Nat) (hk : k < (L.map Prod.snd).length) (c : Cfg),
+        C.enums.find? (fun d => d.name = ns) = some ⟨ns, enumOrder rows⟩ →
+        (0 :: L.map Prod.fst).Nodup → rows.Perm (mkRows 0 L) → (L.map Prod.snd).Nodup →
+        evalStep C rec (.enumOrConst ns (L.map Prod.snd)[k]) c = some (.ok (.int k, c))) :=
+  ⟨fun _ _ _ _ _ hC hp hnd hr hv hs he => const_read hC hp hnd hr hv hs he,
+   fun _ _ _ hs he => const_hidden hs he,
+   fun _ _ _ k hk c hC hnd hp hn => enum_read hC hnd hp hn k hk c⟩
 
 /-! ## non-vacuity -/
 
@@ -211,7 +288,19 @@ def C1 : Ctx :=
       ⟨.derived "A", "twice", [.assignField .self "twice" (.bin .mul (.field .self "n") (.int 2))]⟩,
       ⟨.instOp "A", "bump", [.assignField .self "n" (.bin .add (.field .self "n") (.param "d")),
                              .ret (some (.field .self "n"))]⟩,
-      ⟨.function, "nothing", [.assignVar "x" (.int 1), .ret none, .assignVar "x" (.int 2)]⟩ ],
+      ⟨.function, "nothing", [.assignVar "x" (.int 1), .ret none, .assignVar "x" (.int 2)]⟩,
+      -- `sub2(a, b)`: `return param.a - param.b;`
+      ⟨.function, "sub2", [.ret (some (.bin .sub (.param "a") (.param "b")))]⟩,
+      -- `deep(a, b)`: `i = 0; while (true) i = i + 1; if (i > param.a) if (param.b > 0) return i * param.b; end if; return; end if; end while; return 0 - 1;`
+      ⟨.function, "deep", [.assignVar "i" (.int 0),
+                           .whileS (.bool true) [
+                             .assignVar "i" (.bin .add (.var "i") (.int 1)),
+                             .ifS (.bin .gt (.var "i") (.param "a"))
+                               [.ifS (.bin .gt (.param "b") (.int 0)) [.ret (some (.bin .mul (.var "i") (.param "b")))] [] none,
+                                .ret none] [] none],
+                           .ret (some (.int (-1)))]⟩,
+      -- class-based operation `A::whoami()`: `if (empty self) return 1; end if; return 0;`
+      ⟨.classOp "A", "whoami", [.ifS (.un .empty .self) [.ret (some (.int 1))] [] none, .ret (some (.int 0))]⟩ ],
     enums := [⟨"Color", enumOrder [⟨12, "blue", 11⟩, ⟨10, "red", 0⟩, ⟨11, "green", 10⟩]⟩],
     consts := constTable [⟨"K", "integer", "42"⟩] }
 
@@ -247,6 +336,51 @@ example : enumOrder [⟨12, "blue", 11⟩, ⟨10, "red", 0⟩, ⟨11, "green", 1
 /-- the hypotheses of `enum_positions` are satisfiable: these rows are a permutation of the modeled chain -/
 example : ([⟨12, "blue", 11⟩, ⟨10, "red", 0⟩, ⟨11, "green", 10⟩] : List EnumRow).Perm
     (mkRows 0 [(10, "red"), (11, "green"), (12, "blue")]) := by
+  decide +kernel
+
+/-! ### the hypotheses of the main theorems are satisfiable — and what the theorems then say
+
+  (`valOfR`, `ok_of_valOfR` in Proofs/InterpReturn.lean: `valOfR` projects the value out of a result; `ok_of_valOfR` turns a decided projection into the hypothesis shape
+  `… = some (.ok (v, c'))` the theorems ask for) -/
+
+def cfg1 : Cfg := { fr := mkFrame .function [] .none, st := st1 }
+
+/-- a call with two parameters, arguments in either order: `sub2(a: 10, b: 3)` = `sub2(b: 3, a: 10)` = 7 -/
+example : valOfR ((run C1 6).eval (.call .function "sub2" [("a", .int 10), ("b", .int 3)]) cfg1) = some (.int 7) ∧
+          valOfR ((run C1 6).eval (.call .function "sub2" [("b", .int 3), ("a", .int 10)]) cfg1) = some (.int 7) := by
+  decide +kernel
+
+/-- `params_by_name` applied: its hypotheses (a permutation of an argument list with distinct names) hold here -/
+example (rec : Oracle) (body : Block) :
+    invoke rec .function body [("a", .int 10), ("b", .int 3)] .none =
+    invoke rec .function body [("b", .int 3), ("a", .int 10)] .none :=
+  (params_by_name C1 rec .function body _ _ .none (List.Perm.swap _ _ _) (by decide)).1
+
+/-- `call_isolated` applied to an actual call: the evaluation succeeds with 1104, and the frame is the caller's -/
+example : ∃ c', (run C1 12).eval (.call .function "f" []) cfg1 = some (.ok (.int 1104, c')) ∧ c'.fr = cfg1.fr := by
+  obtain ⟨c', h⟩ := ok_of_valOfR (r := (run C1 12).eval (.call .function "f" []) cfg1) (v := .int 1104) (by decide +kernel)
+  exact ⟨c', h, call_isolated C1 12 _ _ _ _ h⟩
+
+/-- `return_value_executed` applied to a return nested in `while` / `if` / `if`: `deep(a: 2, b: 5)` delivers 15, a value
+    other than nothing, so (second conjunct) the body ended by `return` and 15 is the register it left -/
+example : ∃ c2, invoke (run C1 30) .function
+      ((C1.callables.find? (fun f => f.name = "deep")).map Callable.body |>.getD [])
+      [("a", .int 2), ("b", .int 5)] .none cfg1 = some (.ok (.int 15, c2)) ∧
+    ∃ c', execBlock (run C1 30) ((C1.callables.find? (fun f => f.name = "deep")).map Callable.body |>.getD [])
+      { fr := mkFrame .function [("a", .int 2), ("b", .int 5)] .none, st := cfg1.st } = some (.ok (.ret, c')) ∧
+      Val.int 15 = c'.fr.ret := by
+  obtain ⟨c2, h⟩ := ok_of_valOfR (r := invoke (run C1 30) .function
+      ((C1.callables.find? (fun f => f.name = "deep")).map Callable.body |>.getD [])
+      [("a", .int 2), ("b", .int 5)] .none cfg1) (v := .int 15) (by decide +kernel)
+  exact ⟨c2, h, (return_value_executed C1 30 _ _ _ _ _ _ _ (by simp [NotDerived]) h).2 (by simp)⟩
+
+/-- the bare `return;` nested at the same place delivers nothing: `deep(a: 2, b: 0)` -/
+example : valOfR ((run C1 30).eval (.call .function "deep" [("a", .int 2), ("b", .int 0)]) cfg1) = some .none := by
+  decide +kernel
+
+/-- in a class-based operation `self` is the empty handle; in a function reading `self` is an error -/
+example : valOfR ((run C1 10).eval (.call (.classOp "A") "whoami" []) cfg1) = some (.int 1) ∧
+          valOfR ((run C1 10).eval .self cfg1) = none := by
   decide +kernel
 
 /-- a derived attribute whose action navigates: `B.d`:
